@@ -108,13 +108,13 @@ func genSliceRefs(r *rng, mol gts.Molecule, wa, wb int) []seqio.Reference {
 		outside = append(outside, one(P, rng1(1, wa)), one(P, rng1(wa, wa))) // end at the window's start
 	}
 	inside := []string{
-		one(P, rng1(wa+1, wb)),              // the window itself
-		one(P, rng1(1, 999999999)),          // 1 digit / 9 digits
-		one(P, rng1(1, 1000000000)),         // 10 digits
+		one(P, rng1(wa+1, wb)),               // the window itself
+		one(P, rng1(1, 999999999)),           // 1 digit / 9 digits
+		one(P, rng1(1, 1000000000)),          // 10 digits
 		one(P, rng1(1, 9223372036854775807)), // 19 digits: the largest int
-		one(P, rng1(wa+1, wa+1)),            // first base of the window
-		one(P, rng1(wb, wb)),                // last base of the window
-		one(P, rng1(wb, wb+1)),              // across the window's end
+		one(P, rng1(wa+1, wa+1)),             // first base of the window
+		one(P, rng1(wb, wb)),                 // last base of the window
+		one(P, rng1(wb, wb+1)),               // across the window's end
 		one(P, rng1(1, wa+1), rng1(wb, wb+7), rng1(wb+1, wb+2)),
 		one(P, rng1(0, 1)), one(P, rng1(-3, wb)), // start -1 / -4: read as ranges (Atoi takes a sign)
 	}
